@@ -1,7 +1,7 @@
-(* The enumeration reaches every tree shape; Prop readings of the executable checkers;
-   the bounded (finite-domain, kernel-evaluated) companions of the open C17 clauses. *)
+(* The enumeration reaches every tree shape; Prop reading of the executable checker;
+   the bounded (finite-domain, kernel-evaluated) companion of the open C17 clause. *)
 From Coq Require Import List Arith Bool Lia.
-From PTN Require Import Tree.RTree Tree.RTreeProofs Tree.Nav Tree.UpdatePath Tree.CachePath Tree.Enum.
+From PTN Require Import Tree.RTree Tree.RTreeProofs Tree.Nav Tree.UpdatePath Tree.Enum.
 Import ListNotations.
 
 (* ---- completeness of the enumeration ---------------------------------------------- *)
@@ -46,115 +46,11 @@ Proof.
   intros e He. rewrite forallb_forall in H. apply Nat.leb_le. auto.
 Qed.
 
-Lemma check_distances_sound : forall t, check_distances t = true ->
-  forall c, In c (ids t) -> exists d, distance_to_node t c = Some d /\ length d = size t /\
-    forall x, In x (ids t) -> exists k, assoc x d = Some k /\ tree_dist t c x = Some k.
-Proof.
-  intros t H c Hc. unfold check_distances in H. rewrite forallb_forall in H. specialize (H c Hc).
-  destruct (distance_to_node t c) as [d|]; [|discriminate]. exists d. apply andb_true_iff in H. destruct H as [H1 H2].
-  repeat split; auto. { apply Nat.eqb_eq; auto. }
-  intros x Hx. rewrite forallb_forall in H2. specialize (H2 x Hx). destruct (assoc x d) as [k|]; [|discriminate].
-  exists k. split; auto. destruct (tree_dist t c x); simpl in H2; [|discriminate]. apply Nat.eqb_eq in H2. congruence.
-Qed.
-
-Lemma check_cache_direction_sound : forall t u keys, check_cache_direction t u keys = true ->
-  forall n m, In (n, m) keys -> exists r, path_from_to t n u = Some (n :: m :: r).
-Proof.
-  intros t u keys H n m Hin. unfold check_cache_direction in H. rewrite forallb_forall in H.
-  specialize (H (n, m) Hin). simpl in H. destruct (path_from_to t n u) as [[|a [|b r]]|]; try discriminate.
-  apply andb_true_iff in H. destruct H as [H1 H2]. apply Nat.eqb_eq in H1. apply Nat.eqb_eq in H2. subst. eauto.
-Qed.
-
-Lemma check_cache_edges_sound : forall t keys, check_cache_edges t keys = true ->
-  length keys = length (edges t) /\ forall e, In e (edges t) -> crossings e keys = 1.
-Proof.
-  intros t keys H. unfold check_cache_edges in H. apply andb_true_iff in H. destruct H as [H1 H2].
-  split; [apply Nat.eqb_eq; auto|]. intros e He. rewrite forallb_forall in H2. apply Nat.eqb_eq. auto.
-Qed.
-
-Lemma has_pair_In : forall p l, has_pair p l = true -> In p l.
-Proof.
-  intros [a b] l H. unfold has_pair in H. apply existsb_exists in H. destruct H as [[c d] [Hi He]]. simpl in He.
-  apply andb_true_iff in He. destruct He as [E1 E2]. apply Nat.eqb_eq in E1. apply Nat.eqb_eq in E2. subst. exact Hi.
-Qed.
-
-Lemma check_cache_order_sound : forall t keys done, check_cache_order t done keys = true ->
-  forall pre n m post, keys = pre ++ (n, m) :: post ->
-  forall j, In j (neighbours t n) -> j <> m -> In (j, n) (pre ++ done).
-Proof.
-  intros t keys. induction keys as [|[n0 m0] r IH]; intros done H pre n m post E j Hj Hne.
-  - destruct pre; discriminate.
-  - simpl in H. apply andb_true_iff in H. destruct H as [H1 H2]. destruct pre as [|k pre].
-    + simpl in E. inversion E; subst. simpl. rewrite forallb_forall in H1. specialize (H1 j Hj).
-      apply orb_true_iff in H1. destruct H1 as [H1|H1]; [apply Nat.eqb_eq in H1; contradiction|]. apply has_pair_In; auto.
-    + simpl in E. inversion E; subst. specialize (IH _ H2 pre n m post eq_refl j Hj Hne).
-      apply in_app_or in IH. simpl. destruct IH as [IH|[IH|IH]]; auto.
-      * right. apply in_or_app. auto.
-      * right. apply in_or_app. auto.
-Qed.
-
-(* the three cache clauses, in Prop form *)
-Definition cache_ok (t : rtree) (u : nat) (keys : list (nat * nat)) : Prop :=
-  (length keys = length (edges t) /\ forall e, In e (edges t) -> crossings e keys = 1) /\
-  (forall n m, In (n, m) keys -> exists r, path_from_to t n u = Some (n :: m :: r)) /\
-  (forall pre n m post, keys = pre ++ (n, m) :: post ->
-     forall j, In j (neighbours t n) -> j <> m -> In (j, n) pre).
-
-Lemma check_cache_sound : forall t, check_cache t = true ->
-  exists u l keys, update_path t = Some (u :: l) /\ tdvp_cache_keys t = Some keys /\ cache_ok t u keys.
-Proof.
-  intros t H. unfold check_cache in H. destruct (update_path t) as [[|u l]|]; try discriminate.
-  destruct (tdvp_cache_keys t) as [keys|]; [|discriminate].
-  apply andb_true_iff in H. destruct H as [H H3]. apply andb_true_iff in H. destruct H as [H1 H2].
-  exists u, l, keys. repeat split; auto.
-  - apply (check_cache_edges_sound t keys H1).
-  - apply (check_cache_edges_sound t keys H1).
-  - apply check_cache_direction_sound; auto.
-  - intros pre n m post E j Hj Hne. pose proof (check_cache_order_sound t keys [] H3 pre n m post E j Hj Hne) as Hi.
-    rewrite app_nil_r in Hi. exact Hi.
-Qed.
-
-Lemma check_cache_any_sound : forall t, check_cache_any t = true ->
-  forall u, In u (ids t) -> exists keys, cache_keys t u = Some keys /\ cache_ok t u keys.
-Proof.
-  intros t H u Hu. unfold check_cache_any in H. rewrite forallb_forall in H. specialize (H u Hu).
-  destruct (cache_keys t u) as [keys|]; [|discriminate]. exists keys. split; auto.
-  apply andb_true_iff in H. destruct H as [H H3]. apply andb_true_iff in H. destruct H as [H1 H2].
-  repeat split.
-  - apply (check_cache_edges_sound t keys H1).
-  - apply (check_cache_edges_sound t keys H1).
-  - apply check_cache_direction_sound; auto.
-  - intros pre n m post E j Hj Hne. pose proof (check_cache_order_sound t keys [] H3 pre n m post E j Hj Hne) as Hi.
-    rewrite app_nil_r in Hi. exact Hi.
-Qed.
-
-(* ---- bounded companions (finite domain, evaluated by the kernel) ------------------ *)
-Lemma all_crossings_10 : forallb check_crossings (trees_upto 10) = true.
+(* ---- bounded companion (finite domain, evaluated by the kernel) -------------------- *)
+Lemma all_crossings_11 : forallb check_crossings (trees_upto 11) = true.
 Proof. vm_compute. reflexivity. Qed.
 
-Lemma all_cache_10 : forallb check_cache (trees_upto 10) = true.
-Proof. vm_compute. reflexivity. Qed.
-
-Lemma all_cache_any_9 : forallb check_cache_any (trees_upto 9) = true.
-Proof. vm_compute. reflexivity. Qed.
-
-Lemma all_distances_9 : forallb check_distances (trees_upto 9) = true.
-Proof. vm_compute. reflexivity. Qed.
-
-Theorem crossings_bounded_10 : forall t, In t (trees_upto 10) ->
+Theorem crossings_bounded_11 : forall t, In t (trees_upto 11) ->
   exists p w, update_path t = Some p /\ walk_edges t p = Some w /\
               forall e, In e (edges t) -> crossings e w <= 2.
-Proof. intros t H. apply check_crossings_sound. exact (proj1 (forallb_forall _ _) all_crossings_10 t H). Qed.
-
-Theorem cache_bounded_10 : forall t, In t (trees_upto 10) ->
-  exists u l keys, update_path t = Some (u :: l) /\ tdvp_cache_keys t = Some keys /\ cache_ok t u keys.
-Proof. intros t H. apply check_cache_sound. exact (proj1 (forallb_forall _ _) all_cache_10 t H). Qed.
-
-Theorem cache_any_bounded_9 : forall t, In t (trees_upto 9) ->
-  forall u, In u (ids t) -> exists keys, cache_keys t u = Some keys /\ cache_ok t u keys.
-Proof. intros t H. apply check_cache_any_sound. exact (proj1 (forallb_forall _ _) all_cache_any_9 t H). Qed.
-
-Theorem distances_bounded_9 : forall t, In t (trees_upto 9) ->
-  forall c, In c (ids t) -> exists d, distance_to_node t c = Some d /\ length d = size t /\
-    forall x, In x (ids t) -> exists k, assoc x d = Some k /\ tree_dist t c x = Some k.
-Proof. intros t H. apply check_distances_sound. exact (proj1 (forallb_forall _ _) all_distances_9 t H). Qed.
+Proof. intros t H. apply check_crossings_sound. exact (proj1 (forallb_forall _ _) all_crossings_11 t H). Qed.
